@@ -768,10 +768,9 @@ class CompilerPassGenerateCode(CompilerPass):
         test_data = test_node._ndata
 
         if test_data.is_constant:
-            if test_data.constant_value:
-                emit_else = negate_test
-            else:
-                emit_if = negate_test
+            test_holds = bool(test_data.constant_value) != negate_test
+            emit_if = emit_if and test_holds
+            emit_else = emit_else and not test_holds
         elif isinstance(test_node, nodes.Compare):
             left = self.compile_node(test_node.left)
             right = self.compile_node(test_node.ops[0][1])
@@ -784,10 +783,9 @@ class CompilerPassGenerateCode(CompilerPass):
             )
             data.add(IC10(instruction, [left, right, else_label]))
         elif isinstance(test_node, nodes.Const):
-            if test_node.value:
-                emit_else = negate_test
-            else:
-                emit_if = negate_test
+            test_holds = bool(test_node.value) != negate_test
+            emit_if = emit_if and test_holds
+            emit_else = emit_else and not test_holds
         elif isinstance(test_node, (nodes.BoolOp, nodes.Name, nodes.Attribute)):
             data.add(IC10("bnez" if negate_test else "beqz", [test, else_label]))
         elif isinstance(test_node, nodes.Call) and try_replace_call_with_branch(
